@@ -204,7 +204,7 @@ Lemma Write_channels_pinned :
      "if err != nil"; "recvResult <- err";
      "if size > s.maxCasBlobSizeBytes";
      "recvResult <- status.Errorf(codes.InvalidArgument, ""Blob size %d exceeds maximum allowed size %d"", size, s.maxCasBlobSizeBytes)";
-     "if exists"; "putResult <- io.EOF";
+     "if exists && !(size == 0 && hash == emptySha256)"; "putResult <- io.EOF";
      "if req.WriteOffset != 0"; "recvResult <- err";
      "if !ok"; "recvResult <- errDecoderPoolFail"; "if err != nil"; "recvResult <- err";
      "putResult <- err";
@@ -215,6 +215,11 @@ Lemma Write_channels_pinned :
      "recvResult <- status.Error(codes.Unknown, msg)"; "recvResult <- io.EOF";
      "err, ok := <-recvResult"; "err := <-putResult"; "err := <-putResult"].
 Proof. reflexivity. Qed.
+(* the early-return condition of the model is this one (Contains answers [contains]) *)
+Lemma Write_early_return_pinned :
+  In "exists && !(size == 0 && hash == emptySha256)" conds_server_Write /\
+  forall present h sz, early_return present h sz = contains present h sz && negb ((sz =? 0) && String.eqb h Keys.emptySha256).
+Proof. split; [cbn; tauto|reflexivity]. Qed.
 Lemma Write_committed_pinned :
   filter (fun s => starts_with "resp.CommittedSize" s) stmts_server_Write_committed =
     ["resp.CommittedSize = size"; "resp.CommittedSize = -1"; "resp.CommittedSize = req.WriteOffset";
